@@ -68,8 +68,14 @@ struct char_traits_base {
 
     static constexpr auto move(char_type* dest, char_type const* source, size_t count) -> char_type*
     {
+        // the ranges may overlap: with dest inside (source, source + count) copy from the back
+        auto backward = false;
+        for (size_t i = 1; i < count; ++i) {
+            backward = backward or (source + i == dest);
+        }
         for (size_t i = 0; i < count; ++i) {
-            dest[i] = source[i];
+            auto const k = backward ? count - 1 - i : i;
+            dest[k]      = source[k];
         }
         return dest;
     }
